@@ -56,6 +56,13 @@ def cases(draw, tier):
     spec = draw(gen.machine_spec(max_states=4, max_extra=5, providers=provs, late=late, async_mode=async_mode, sends=draw(st.sampled_from([False, False, True])),
                                  shared_names=True, attach=("conv", "name", "func", "deco", "partial", "bound")))
     spec["falsy_providers"] = [p for p in provs if p.startswith("l") and draw(st.integers(0, 4)) == 0]
+    if draw(st.integers(0, 2)) == 0:
+        # groups and their order must not depend on how the transitions were declared: one call that yields several transitions
+        # (a.to(b, c), c.from_(a, b), from_.any()) hands its validators / actions to every one of them
+        from .c15 import plan
+
+        bundles = draw(gen.add_bundle(spec))
+        spec["style"] = draw(plan(spec, bundles, any(c["scope"][0] == "state" and c["attach"] != "conv" for c in spec["cbs"])))
     is_async = gen.is_async_spec(spec)
     cfg = {"rtc": True if is_async else draw(st.sampled_from([True, True, False])), "allow": draw(st.booleans()),
            "driver": draw(st.sampled_from(["sync", "loop"])), "activate": draw(st.booleans()), "late": list(late)}
